@@ -21,11 +21,15 @@ def run(ctx):
         f1 = ex.submit(cd.emit, ctx, "U12", 5 if quick else 7, curv=True)
         f2 = ex.submit(cd.emit, ctx, "E21", 14, simulate=2 if quick else 30, depth=11, minpts=7, curv=True)
         f3 = ex.submit(pd.emit_polygons, ctx, 2, 5 if quick else 6, False)
+        # sharp and flat features: a knife edge (interior dihedral 0.76 degrees), a roof with tip bevels, a nearly flat slab
+        f4 = [ex.submit(cd.emit, ctx, u, n, minpts=n, curv=True) for u, n in (("Knife", 6), ("Blade", 7), ("Slab", 9), ("Spike", 5))]
         crecs = f1.result() + f2.result()
+        named = [r for f in f4 for r in f.result()]
         precs = [r for r in f3.result() if r["convex"]]
     if quick:
         crecs = crecs[::3]
         precs = precs[::2]
+    crecs = named + crecs
     cases = se.build_cases(crecs, ctx.tier, ctx.seed)
     for case, (mism, stats) in zip(cases, pmap(se.eval_solid, cases)):
         ctx.case((json.dumps(case["rec"]["v"]), json.dumps(case["pl"])), nontrivial=True,
